@@ -106,7 +106,7 @@ func snapTerm(b rlBase, s quic.VerifRunLoopSnap) string {
 	return u.App("mkSnap", u.Z(b.t(s.Now)), u.B(s.Client), u.B(s.HandshakeComplete), u.Z(s.IdleTimeout), u.Z(s.KeepAliveInterval),
 		u.Z(s.CfgKeepAlivePeriod), u.Z(s.CfgMaxIdleTimeout), u.Z(s.CfgHandshakeIdle), u.Z(s.CfgHandshakeTimeout),
 		u.Z(b.t(s.CreationTime)), u.Z(b.t(s.LastPacketReceived)), u.Z(b.t(s.FirstAckElicitingAft)), u.B(s.KeepAlivePingSent),
-		u.Z(int64(s.Blocked)), u.Z(b.t(s.PacingDeadline)), u.Z(s.PTO), u.Z(b.t(s.AckAlarm)), u.Z(b.t(s.LossTimeout)), u.Z(b.t(s.NextRetire)))
+		u.Z(int64(s.Blocked)), u.Z(b.t(s.PacingDeadline)), u.Z(s.PTO), u.Z(b.t(s.AckAlarm)), u.Z(b.t(s.LossTimeout)), u.Z(b.t(s.NextRetire)), u.Z(s.OwnAdvertisedIdle))
 }
 
 // error classes shared with Run.v (errk_of)
@@ -759,7 +759,7 @@ func runOneRL(c rlCase, o *rlOut) {
 			o.count(fmt.Sprintf("snap hs=%v blocked=%d ka=%v kaSent=%v", s.HandshakeComplete, s.Blocked, s.CfgKeepAlivePeriod != 0, s.KeepAlivePingSent))
 			if s.PeerMaxIdleTimeout >= 0 && s.IdleTimeout != 0 && !rc.tp {
 				rc.tp = true
-				o.emit(1, u.App("ParamsCase", u.Z(s.CfgMaxIdleTimeout), u.Z(s.PeerMaxIdleTimeout), u.Z(s.PeerAdvertisedIdle), u.Z(s.CfgKeepAlivePeriod), u.Z(s.IdleTimeout), u.Z(s.KeepAliveInterval)))
+				o.emit(1, u.App("ParamsCase", u.Z(s.CfgMaxIdleTimeout), u.Z(s.PeerMaxIdleTimeout), u.Z(s.PeerAdvertisedIdle), u.Z(s.OwnAdvertisedIdle), u.Z(s.CfgKeepAlivePeriod), u.Z(s.IdleTimeout), u.Z(s.KeepAliveInterval)))
 				// monitor: the negotiated idle timeout is the minimum of what both sides configured
 				// (the peer's value travels in milliseconds; the code raises remote values below
 				// protocol.MinRemoteIdleTimeout = 5 s to 5 s, see notes/C17.md)
@@ -1325,6 +1325,20 @@ func runRunLoop(w *bufio.Writer, seed uint64, n int, args []string) {
 			o.fail("runloop/leak-or-panic", "bad-tls dial: "+err.Error())
 		}
 	}
+	// (monitor failures of the table scenarios below carry their input in the description)
+	flush := func(from int) {
+		for _, f := range o.fails[from:] {
+			fmt.Fprintf(w, "MONFAIL\t%s\t%s\t%s\n", f.key, f.desc, "table scenario (see the description)")
+		}
+	}
+	// transport parameters of spec-driven clients whose list advertises / omits / suppresses max_idle_timeout
+	flush(0) // what the closed-connection and early-exit cases above found
+	from := len(o.fails)
+	for _, t := range rlSpecParamsTable {
+		runOneSpecParams(t, o)
+	}
+	flush(from)
+	from = len(o.fails)
 	// CONNECTION_CLOSE while the handshake is in progress
 	hr := u.NewRng(seed ^ 0x4c5)
 	for i := 0; i < max(4, n/4); i++ {
@@ -1334,6 +1348,7 @@ func runRunLoop(w *bufio.Writer, seed uint64, n int, args []string) {
 		}
 		runOneHsClose(i%2 == 0, code, hr.Bool(), o)
 	}
+	flush(from)
 	// fan-out over stream states (unit level)
 	fr := u.NewRng(seed ^ 0xfa0)
 	for i := 0; i < 6*n; i++ {
